@@ -51,7 +51,9 @@ def _strip(o):
 
 def raw_hash(fam):
     import hashlib
-    return hashlib.sha256(json.dumps(_strip(sorted(fam, key=lambda b: b["path"])), sort_keys=True).encode()).hexdigest()[:20]
+    txt = json.dumps(_strip(sorted(fam, key=lambda b: b["path"])), sort_keys=True)
+    txt = re.sub(r"@src/[^\s\"}]*", "@", txt)             # source positions inside closure type names
+    return hashlib.sha256(txt.encode()).hexdigest()[:20]
 
 
 _BASE = None
@@ -77,7 +79,7 @@ def same_form_as_baseline(F):
         return {}
     changed = []
     for path, h in forms.items():
-        if path in F.bodies:
+        if path in F.bodies and h.get("form"):
             if raw_hash(family(F.doc, path)) != h["raw"]:
                 changed.append(path)
     out = {}
@@ -103,8 +105,12 @@ def apply(F):
     from . import nf
     tab = nf._alt_table()
     hits = {}
+    forms0, _ = _baseline()
     for path in tab:
         if path in F.bodies:
+            h0 = forms0.get(path)
+            if h0 and raw_hash(family(F.doc, path)) == h0["raw"]:
+                continue                                    # unchanged since the baseline: nothing to recognise
             e = nf.is_verified_equivalent(F, path)
             if e is not None:
                 base = stored(path)
